@@ -97,7 +97,8 @@ def _parse_retry_after(value: str) -> float | None:
     except ValueError:
         try:
             parsed = parsedate_to_datetime(raw)
-        except (TypeError, ValueError, IndexError):
+        except (TypeError, ValueError, IndexError, OverflowError):
+            # OverflowError: a date field beyond the C int range
             return None
         if parsed is None:
             return None
